@@ -101,6 +101,42 @@ fn divisor_scaled() -> BoxedStrategy<Case> {
         .boxed()
 }
 
+/// results exactly at / next to +-(2^127-1): mul_rounded with cy ~ (MAX+d)*10^(p+q-n)/cx,
+/// div_rounded with cx ~ (MAX+d)*cy/10^(n+q-p), and MAX * (non-normalised one)
+fn result_edge() -> BoxedStrategy<Case> {
+    (0u8..=18, 0u8..=18, 0u8..=18, arb_magnitude(), -3i128..=3, 0u8..=4, 0u8..3, any::<bool>(), any::<bool>(), 0u8..8)
+        .prop_map(|(p, q, n, c, d, frac, kind, n1, n2, mode)| {
+            let c = c.max(1);
+            let t = Big::from_i128(MAXC).add(&Big::from_i128(d)).mul(&Big::from_u64(4)).add(&Big::from_u64(frac as u64));
+            let pick = |b: Big| b.to_i128().filter(|v| *v != i128::MIN && *v > 0).unwrap_or(MAXC);
+            let (op, x, y) = match kind {
+                0 => {
+                    // mul_rounded: cx * cy / 10^(p+q-n) ~ MAX + d + frac/4
+                    let s = (p + q) as i32 - n as i32;
+                    let num = if s >= 0 { t.mul(&Big::pow10(s as u32)) } else { t };
+                    let (cy, _) = num.divrem_trunc(&Big::from_i128(c).mul(&Big::from_u64(4)));
+                    (Op::MulRounded, D::new(c, p), D::new(pick(cy), q))
+                }
+                1 => {
+                    // div_rounded: cx * 10^(n+q-p) / cy ~ MAX + d + frac/4
+                    let e = n as i32 + q as i32 - p as i32;
+                    let (num, den) = if e >= 0 { (t.mul(&Big::from_i128(c)), Big::pow10(e as u32).mul(&Big::from_u64(4))) } else { (t.mul(&Big::from_i128(c)).mul(&Big::pow10((-e) as u32)), Big::from_u64(4)) };
+                    let (cx, _) = num.divrem_trunc(&den);
+                    (Op::DivRounded, D::new(pick(cx), p), D::new(c, q))
+                }
+                _ => {
+                    // MAX - d times / divided by a one written with q fractional digits
+                    let one = D::new(10i128.pow(q as u32), q);
+                    (if frac % 2 == 0 { Op::MulRounded } else { Op::DivRounded }, D::new(MAXC - d.abs(), p), one)
+                }
+            };
+            let x = D::new(if n1 { -x.c } else { x.c }, x.s);
+            let y = D::new(if n2 { -y.c } else { y.c }, y.s);
+            Case { op, x: Opnd::Dec(x), y: Opnd::Dec(y), n: if kind == 2 { p } else { n }, mode }
+        })
+        .boxed()
+}
+
 /// ties for div_rounded at n digits on the equal / dividend-scaled branches
 fn div_tie() -> BoxedStrategy<Case> {
     (0u8..=18, 0u8..=18, 0u8..=18, any::<u64>(), any::<u64>(), 0u32..=63, 0u32..=63, -1i128..=1, any::<bool>(), any::<bool>(), 0u8..8)
@@ -252,6 +288,11 @@ impl Prop for C04 {
                 };
                 Case { op: match o { 0 => Op::MulRounded, 1 => Op::DivRounded, _ => Op::Quantize }, x: xo, y: yo, n, mode }
             }),
+            3 => (arb_wide_dec_pair(), 0u8..2, arb_n(), 0u8..8).prop_map(|((x, y), o, n, mode)| Case {
+                op: if o == 0 { Op::MulRounded } else { Op::DivRounded },
+                x: Opnd::Dec(x), y: Opnd::Dec(y), n, mode,
+            }),
+            3 => result_edge(),
             4 => divisor_scaled(),
             3 => div_tie(),
             3 => mul_tie(),
